@@ -28,7 +28,7 @@ ASSUMPTIONS = {
     "vt_find_char": "str::find(char): byte index of the first occurrence", "vt_rfind_char": "-", "vt_utf16_count": "-",
     "vtc_len_utf8": "-", "vtc_len_utf16": "-", "vu_min": "-", "CharIndices": "-", "vt_char_indices": "-", "next": "-",
     "PathBuf": "opaque", "vc_clone": "-", "vs_string_eq_lit": "-", "vs_string_eq": "-", "vs_string_from_lit": "std to_owned",
-    "vS_as_str": "&String as &str: the same text", "vt_trim_start_len": "s.trim_start().len() <= s.len()", "vt_trim_end_len": "s.trim_end().len() <= s.len()",
+    "vS_as_str": "&String as &str: the same text", "vt_trim_start_len": "s.trim_start().len() <= s.len()", "vt_trim_end_len": "s.trim_end().len() <= s.len()", "vt_trim_is_empty": "s.trim().is_empty()",
     "vt_starts_with_char": "str::starts_with(char)", "vt_ends_with_char": "str::ends_with(char)", "vt_contains_char": "str::contains(char)",
     "vt_eq_lit": "&str == \"literal\"", "vt_byte_at": "s.as_bytes()[i]: panics unless i < s.len()",
     "OpaqueSet": "opaque stand-in for FxHashSet<usize>", "LineEdit": "-",
@@ -58,6 +58,8 @@ pub fn vS_as_str(s: &String) -> (r: &str) ensures r@ == s@ { s.as_str() }
 pub fn vt_trim_start_len(s: &str) -> (r: usize) ensures r <= blen_cs(s@) { s.trim_start().len() }
 #[verifier::external_body]
 pub fn vt_trim_end_len(s: &str) -> (r: usize) ensures r <= blen_cs(s@) { s.trim_end().len() }
+#[verifier::external_body]
+pub fn vt_trim_is_empty(s: &str) -> (r: bool) { s.trim().is_empty() }
 #[verifier::external_body]
 pub fn vt_starts_with_char(s: &str, c: char) -> (r: bool) { s.starts_with(c) }
 #[verifier::external_body]
@@ -116,6 +118,7 @@ RULES = [
     rw.simple("R1", r"self\.src\[(\w+)\.\.\]\.find\(('(?:\\.|[^'])')\)", r"vt_find_char(vt_slice_from(%s, \1), \2)" % SRC),
     rw.simple("R2", r"(\w+)\.len\(\) - \1\.trim_start\(\)\.len\(\)", r"vt_len(\1) - vt_trim_start_len(\1)"),
     rw.simple("R2", r"(\w+)\.len\(\) - \1\.trim_end\(\)\.len\(\)", r"vt_len(\1) - vt_trim_end_len(\1)"),
+    rw.simple("R2", r"(\w+)\.trim\(\)\.is_empty\(\)", r"vt_trim_is_empty(\1)"),
     rw.simple("R2", r"(\w+)\.starts_with\(('(?:\\.|[^'])')\)", r"vt_starts_with_char(\1, \2)"),
     rw.simple("R2", r"(\w+)\.ends_with\(('(?:\\.|[^'])')\)", r"vt_ends_with_char(\1, \2)"),
     rw.simple("R2", r"(\w+)\.contains\(('(?:\\.|[^'])')\)", r"vt_contains_char(\1, \2)"),
